@@ -52,6 +52,12 @@ func New[H Hash](options ...func(config *Config[H])) (*DBFT[H], error) {
 
 func (d *DBFT[H]) addTransaction(tx Transaction[H]) {
 	d.Transactions[tx.Hash()] = tx
+	d.checkTransactions()
+}
+
+// checkTransactions verifies the proposed block and answers PrepareRequest if
+// all of its transactions are collected.
+func (d *DBFT[H]) checkTransactions() {
 	if d.hasAllTransactions() {
 		if d.IsPrimary() || d.Context.WatchOnly() {
 			return
